@@ -16,6 +16,8 @@ type FlvCache struct {
 	cacheGop bool
 	l        sync.RWMutex
 	gop      queue.Queue
+	hasKey   bool   // 已见过关键帧
+	keyTS    uint32 // 最近关键帧的时间戳
 	// cached meta data
 	metaData *flv.Tag
 	// cached video sequence header
@@ -52,6 +54,13 @@ func (cache *FlvCache) CachePack(pack Pack) bool {
 	}
 
 	keyframe := tag.IsH2645KeyFrame()
+	if keyframe { // 多 slice 关键帧：同一时间戳的后续 tag 不是新的关键帧起点
+		if cache.hasKey && cache.keyTS == tag.Timestamp {
+			keyframe = false
+		} else {
+			cache.hasKey, cache.keyTS = true, tag.Timestamp
+		}
+	}
 	if cache.cacheGop { // 如果启用 FlvCache
 		if keyframe { // 关键帧，重置GOP
 			cache.gop.Reset()
@@ -68,6 +77,7 @@ func (cache *FlvCache) Reset() {
 	cache.l.Lock()
 	defer cache.l.Unlock()
 	cache.gop.Reset()
+	cache.hasKey = false
 	cache.metaData = nil
 	cache.videoSequenceHeader = nil
 	cache.audioSequenceHeader = nil
